@@ -2,7 +2,7 @@
 // postcondition over the whole abstract view + ledger + frame.
 
 fn post_common<const N: usize>(b: &CircularBuffer<N, Tok>, what: &str) {
-    assert!(wf(b), "[C01,C03,C04] representation invariant broken after the operation");
+    check!(wf(b), "[C01,C03,C04] representation invariant broken after the operation");
 }
 
 // ----- single-element insertion (C01 C02 C03 C20) ------------------------------------------
@@ -15,11 +15,11 @@ pub(crate) fn c_push_back<const N: usize>() {
     post_common(&b, "push_back");
     let new = ids_of(&b);
     let mut m = old; let mr = m.push_back_capped(xid, N);
-    assert!(opt_id(&r) == mr, "[C01,C02] push_back: returned element is not the displaced one");
-    assert!(new.eq(&m), "[C01,C02] push_back: contents differ from the capped-deque model");
-    assert!(b.len() == m.len && b.is_empty() == (m.len == 0) && b.is_full() == (m.len == N), "[C01] push_back: len/is_empty/is_full");
-    assert!(ledger_ok(&new, &held1(&r)), "[C03] push_back: element lost, duplicated or destroyed");
-    assert!(relocated(&old_slots, &slots_of(&b), next_id()) <= 2, "[C20] push_back relocates more than two surviving elements");
+    check!(opt_id(&r) == mr, "[C01,C02] push_back: returned element is not the displaced one");
+    check!(new.eq(&m), "[C01,C02] push_back: contents differ from the capped-deque model");
+    check!(b.len() == m.len && b.is_empty() == (m.len == 0) && b.is_full() == (m.len == N), "[C01] push_back: len/is_empty/is_full");
+    check!(ledger_ok(&new, &held1(&r)), "[C03] push_back: element lost, duplicated or destroyed");
+    check!(relocated(&old_slots, &slots_of(&b), next_id()) <= 2, "[C20] push_back relocates more than two surviving elements");
     nd::reached();
     core::mem::forget(r); core::mem::forget(b);
 }
@@ -32,11 +32,11 @@ pub(crate) fn c_push_front<const N: usize>() {
     post_common(&b, "push_front");
     let new = ids_of(&b);
     let mut m = old; let mr = m.push_front_capped(xid, N);
-    assert!(opt_id(&r) == mr, "[C01,C02] push_front: returned element is not the displaced one");
-    assert!(new.eq(&m), "[C01,C02] push_front: contents differ from the capped-deque model");
-    assert!(b.len() == m.len && b.is_empty() == (m.len == 0) && b.is_full() == (m.len == N), "[C01] push_front: len/is_empty/is_full");
-    assert!(ledger_ok(&new, &held1(&r)), "[C03] push_front: element lost, duplicated or destroyed");
-    assert!(relocated(&old_slots, &slots_of(&b), next_id()) <= 2, "[C20] push_front relocates more than two surviving elements");
+    check!(opt_id(&r) == mr, "[C01,C02] push_front: returned element is not the displaced one");
+    check!(new.eq(&m), "[C01,C02] push_front: contents differ from the capped-deque model");
+    check!(b.len() == m.len && b.is_empty() == (m.len == 0) && b.is_full() == (m.len == N), "[C01] push_front: len/is_empty/is_full");
+    check!(ledger_ok(&new, &held1(&r)), "[C03] push_front: element lost, duplicated or destroyed");
+    check!(relocated(&old_slots, &slots_of(&b), next_id()) <= 2, "[C20] push_front relocates more than two surviving elements");
     nd::reached();
     core::mem::forget(r); core::mem::forget(b);
 }
@@ -51,16 +51,16 @@ pub(crate) fn c_try_push_back<const N: usize>() {
     let mut held = Seq::new();
     if old.len == N {
         // full (this includes capacity zero): Err with that very element, buffer unchanged
-        match &r { Err(t) => { assert!(t.id == xid, "[C01,C02] try_push_back: Err carries a different element"); held.push(t.id); }
-                   Ok(()) => assert!(false, "[C01,C02] try_push_back: returned Ok on a full buffer (element silently lost)") }
-        assert!(new.eq(&old), "[C01,C02] try_push_back: full buffer changed");
+        match &r { Err(t) => { check!(t.id == xid, "[C01,C02] try_push_back: Err carries a different element"); held.push(t.id); }
+                   Ok(()) => check!(false, "[C01,C02] try_push_back: returned Ok on a full buffer (element silently lost)") }
+        check!(new.eq(&old), "[C01,C02] try_push_back: full buffer changed");
     } else {
-        assert!(r.is_ok(), "[C01,C02] try_push_back: returned Err although the buffer was not full");
+        check!(r.is_ok(), "[C01,C02] try_push_back: returned Err although the buffer was not full");
         let mut m = old; m.push(xid);
-        assert!(new.eq(&m), "[C01,C02] try_push_back: element not appended at the back");
+        check!(new.eq(&m), "[C01,C02] try_push_back: element not appended at the back");
     }
-    assert!(ledger_ok(&new, &held), "[C03] try_push_back: element lost, duplicated or destroyed");
-    assert!(relocated(&old_slots, &slots_of(&b), next_id()) <= 2, "[C20] try_push_back relocates more than two surviving elements");
+    check!(ledger_ok(&new, &held), "[C03] try_push_back: element lost, duplicated or destroyed");
+    check!(relocated(&old_slots, &slots_of(&b), next_id()) <= 2, "[C20] try_push_back relocates more than two surviving elements");
     nd::reached();
     core::mem::forget(r); core::mem::forget(b);
 }
@@ -74,16 +74,16 @@ pub(crate) fn c_try_push_front<const N: usize>() {
     let new = ids_of(&b);
     let mut held = Seq::new();
     if old.len == N {
-        match &r { Err(t) => { assert!(t.id == xid, "[C01,C02] try_push_front: Err carries a different element"); held.push(t.id); }
-                   Ok(()) => assert!(false, "[C01,C02] try_push_front: returned Ok on a full buffer (element silently lost)") }
-        assert!(new.eq(&old), "[C01,C02] try_push_front: full buffer changed");
+        match &r { Err(t) => { check!(t.id == xid, "[C01,C02] try_push_front: Err carries a different element"); held.push(t.id); }
+                   Ok(()) => check!(false, "[C01,C02] try_push_front: returned Ok on a full buffer (element silently lost)") }
+        check!(new.eq(&old), "[C01,C02] try_push_front: full buffer changed");
     } else {
-        assert!(r.is_ok(), "[C01,C02] try_push_front: returned Err although the buffer was not full");
+        check!(r.is_ok(), "[C01,C02] try_push_front: returned Err although the buffer was not full");
         let mut m = old; m.push_front(xid);
-        assert!(new.eq(&m), "[C01,C02] try_push_front: element not inserted at the front");
+        check!(new.eq(&m), "[C01,C02] try_push_front: element not inserted at the front");
     }
-    assert!(ledger_ok(&new, &held), "[C03] try_push_front: element lost, duplicated or destroyed");
-    assert!(relocated(&old_slots, &slots_of(&b), next_id()) <= 2, "[C20] try_push_front relocates more than two surviving elements");
+    check!(ledger_ok(&new, &held), "[C03] try_push_front: element lost, duplicated or destroyed");
+    check!(relocated(&old_slots, &slots_of(&b), next_id()) <= 2, "[C20] try_push_front relocates more than two surviving elements");
     nd::reached();
     core::mem::forget(r); core::mem::forget(b);
 }
@@ -97,10 +97,10 @@ pub(crate) fn c_pop_back<const N: usize>() {
     post_common(&b, "pop_back");
     let new = ids_of(&b);
     let mut m = old; let mr = m.pop_back();
-    assert!(opt_id(&r) == mr, "[C01] pop_back: wrong element returned");
-    assert!(new.eq(&m), "[C01] pop_back: contents differ from the model");
-    assert!(ledger_ok(&new, &held1(&r)), "[C03] pop_back: element lost, duplicated or destroyed");
-    assert!(relocated(&old_slots, &slots_of(&b), next_id()) <= 2, "[C20] pop_back relocates more than two surviving elements");
+    check!(opt_id(&r) == mr, "[C01] pop_back: wrong element returned");
+    check!(new.eq(&m), "[C01] pop_back: contents differ from the model");
+    check!(ledger_ok(&new, &held1(&r)), "[C03] pop_back: element lost, duplicated or destroyed");
+    check!(relocated(&old_slots, &slots_of(&b), next_id()) <= 2, "[C20] pop_back relocates more than two surviving elements");
     nd::reached();
     core::mem::forget(r); core::mem::forget(b);
 }
@@ -112,10 +112,10 @@ pub(crate) fn c_pop_front<const N: usize>() {
     post_common(&b, "pop_front");
     let new = ids_of(&b);
     let mut m = old; let mr = m.pop_front();
-    assert!(opt_id(&r) == mr, "[C01] pop_front: wrong element returned");
-    assert!(new.eq(&m), "[C01] pop_front: contents differ from the model");
-    assert!(ledger_ok(&new, &held1(&r)), "[C03] pop_front: element lost, duplicated or destroyed");
-    assert!(relocated(&old_slots, &slots_of(&b), next_id()) <= 2, "[C20] pop_front relocates more than two surviving elements");
+    check!(opt_id(&r) == mr, "[C01] pop_front: wrong element returned");
+    check!(new.eq(&m), "[C01] pop_front: contents differ from the model");
+    check!(ledger_ok(&new, &held1(&r)), "[C03] pop_front: element lost, duplicated or destroyed");
+    check!(relocated(&old_slots, &slots_of(&b), next_id()) <= 2, "[C20] pop_front relocates more than two surviving elements");
     nd::reached();
     core::mem::forget(r); core::mem::forget(b);
 }
@@ -128,11 +128,11 @@ pub(crate) fn c_remove<const N: usize>() {
     post_common(&b, "remove");
     let new = ids_of(&b);
     let mut m = old; let mr = m.remove(i);
-    assert!(opt_id(&r) == mr, "[C01] remove: wrong element returned (or Some/None wrong)");
-    assert!(new.eq(&m), "[C01] remove: contents differ from the model");
-    assert!(ledger_ok(&new, &held1(&r)), "[C03] remove: element lost, duplicated or destroyed");
+    check!(opt_id(&r) == mr, "[C01] remove: wrong element returned (or Some/None wrong)");
+    check!(new.eq(&m), "[C01] remove: contents differ from the model");
+    check!(ledger_ok(&new, &held1(&r)), "[C03] remove: element lost, duplicated or destroyed");
     let budget = if i < old.len { old.len - i } else { 0 };
-    assert!(relocated(&old_slots, &slots_of(&b), next_id()) <= budget, "[C20] remove(i) relocates more than len-i surviving elements");
+    check!(relocated(&old_slots, &slots_of(&b), next_id()) <= budget, "[C20] remove(i) relocates more than len-i surviving elements");
     nd::reached();
     core::mem::forget(r); core::mem::forget(b);
 }
@@ -146,9 +146,9 @@ pub(crate) fn c_swap<const N: usize>() {
     post_common(&b, "swap");
     let new = ids_of(&b);
     let mut m = old; m.swap(i, j);
-    assert!(new.eq(&m), "[C01] swap: contents differ from the model");
-    assert!(ledger_ok(&new, &Seq::new()), "[C03] swap: element lost, duplicated or destroyed");
-    assert!(relocated(&old_slots, &slots_of(&b), next_id()) <= 2, "[C20] swap relocates more than two surviving elements");
+    check!(new.eq(&m), "[C01] swap: contents differ from the model");
+    check!(ledger_ok(&new, &Seq::new()), "[C03] swap: element lost, duplicated or destroyed");
+    check!(relocated(&old_slots, &slots_of(&b), next_id()) <= 2, "[C20] swap relocates more than two surviving elements");
     nd::reached();
     core::mem::forget(b);
 }
@@ -162,10 +162,10 @@ pub(crate) fn c_swap_remove_back<const N: usize>() {
     let new = ids_of(&b);
     let mut m = old;
     let mr = if i < m.len { let l = m.len - 1; m.swap(i, l); m.pop_back() } else { None };
-    assert!(opt_id(&r) == mr, "[C01] swap_remove_back: wrong element returned");
-    assert!(new.eq(&m), "[C01] swap_remove_back: contents differ from the model");
-    assert!(ledger_ok(&new, &held1(&r)), "[C03] swap_remove_back: element lost, duplicated or destroyed");
-    assert!(relocated(&old_slots, &slots_of(&b), next_id()) <= 2, "[C20] swap_remove_back relocates more than two surviving elements");
+    check!(opt_id(&r) == mr, "[C01] swap_remove_back: wrong element returned");
+    check!(new.eq(&m), "[C01] swap_remove_back: contents differ from the model");
+    check!(ledger_ok(&new, &held1(&r)), "[C03] swap_remove_back: element lost, duplicated or destroyed");
+    check!(relocated(&old_slots, &slots_of(&b), next_id()) <= 2, "[C20] swap_remove_back relocates more than two surviving elements");
     nd::reached();
     core::mem::forget(r); core::mem::forget(b);
 }
@@ -179,10 +179,10 @@ pub(crate) fn c_swap_remove_front<const N: usize>() {
     let new = ids_of(&b);
     let mut m = old;
     let mr = if i < m.len { m.swap(i, 0); m.pop_front() } else { None };
-    assert!(opt_id(&r) == mr, "[C01] swap_remove_front: wrong element returned");
-    assert!(new.eq(&m), "[C01] swap_remove_front: contents differ from the model");
-    assert!(ledger_ok(&new, &held1(&r)), "[C03] swap_remove_front: element lost, duplicated or destroyed");
-    assert!(relocated(&old_slots, &slots_of(&b), next_id()) <= 2, "[C20] swap_remove_front relocates more than two surviving elements");
+    check!(opt_id(&r) == mr, "[C01] swap_remove_front: wrong element returned");
+    check!(new.eq(&m), "[C01] swap_remove_front: contents differ from the model");
+    check!(ledger_ok(&new, &held1(&r)), "[C03] swap_remove_front: element lost, duplicated or destroyed");
+    check!(relocated(&old_slots, &slots_of(&b), next_id()) <= 2, "[C20] swap_remove_front relocates more than two surviving elements");
     nd::reached();
     core::mem::forget(r); core::mem::forget(b);
 }
@@ -199,9 +199,9 @@ pub(crate) fn c_truncate_back<const N: usize>() {
     post_common(&b, "truncate_back");
     let new = ids_of(&b);
     let mut m = old; m.keep_first(len);
-    assert!(new.eq(&m), "[C01] truncate_back: contents differ from the model");
-    assert!(ledger_ok(&new, &Seq::new()), "[C03] truncate_back: element lost, duplicated, leaked or destroyed while reachable");
-    assert!(relocated(&old_slots, &slots_of(&b), next_id()) <= 2, "[C20] truncate_back relocates more than two surviving elements");
+    check!(new.eq(&m), "[C01] truncate_back: contents differ from the model");
+    check!(ledger_ok(&new, &Seq::new()), "[C03] truncate_back: element lost, duplicated, leaked or destroyed while reachable");
+    check!(relocated(&old_slots, &slots_of(&b), next_id()) <= 2, "[C20] truncate_back relocates more than two surviving elements");
     nd::reached();
     core::mem::forget(b);
 }
@@ -216,9 +216,9 @@ pub(crate) fn c_truncate_front<const N: usize>() {
     post_common(&b, "truncate_front");
     let new = ids_of(&b);
     let mut m = old; m.keep_last(len);
-    assert!(new.eq(&m), "[C01] truncate_front: contents differ from the model");
-    assert!(ledger_ok(&new, &Seq::new()), "[C03] truncate_front: element lost, duplicated, leaked or destroyed while reachable");
-    assert!(relocated(&old_slots, &slots_of(&b), next_id()) <= 2, "[C20] truncate_front relocates more than two surviving elements");
+    check!(new.eq(&m), "[C01] truncate_front: contents differ from the model");
+    check!(ledger_ok(&new, &Seq::new()), "[C03] truncate_front: element lost, duplicated, leaked or destroyed while reachable");
+    check!(relocated(&old_slots, &slots_of(&b), next_id()) <= 2, "[C20] truncate_front relocates more than two surviving elements");
     nd::reached();
     core::mem::forget(b);
 }
@@ -230,8 +230,8 @@ pub(crate) fn c_clear<const N: usize>() {
     unwatch();
     post_common(&b, "clear");
     let new = ids_of(&b);
-    assert!(new.len == 0 && b.is_empty(), "[C01] clear: buffer not empty");
-    assert!(ledger_ok(&new, &Seq::new()), "[C03] clear: element leaked or destroyed twice");
+    check!(new.len == 0 && b.is_empty(), "[C01] clear: buffer not empty");
+    check!(ledger_ok(&new, &Seq::new()), "[C03] clear: element leaked or destroyed twice");
     nd::reached();
     core::mem::forget(b);
 }
@@ -242,7 +242,7 @@ pub(crate) fn c_drop_buffer<const N: usize>() {
     unsafe { core::ptr::drop_in_place(&mut b); }   // Drop::drop in place (a move would change the watched address)
     core::mem::forget(b);
     unwatch();
-    assert!(ledger_ok(&Seq::new(), &Seq::new()), "[C03] dropping the buffer: element leaked or destroyed twice");
+    check!(ledger_ok(&Seq::new(), &Seq::new()), "[C03] dropping the buffer: element leaked or destroyed twice");
     nd::reached();
 }
 
@@ -263,14 +263,14 @@ pub(crate) fn c_make_contiguous<const N: usize>() {
         (s.as_ptr(), s.len(), ok)
     };
     post_common(&b, "make_contiguous");
-    assert!(first_ok, "[C01,C07] make_contiguous: returned slice is not the whole contents in order");
+    check!(first_ok, "[C01,C07] make_contiguous: returned slice is not the whole contents in order");
     let new = ids_of(&b);
-    assert!(new.eq(&old), "[C01] make_contiguous: logical contents changed");
-    if old.len > 0 { assert!(ptr0 == slot_ptr(&b, 0), "[C07] make_contiguous: returned slice does not alias the buffer's elements"); }
-    assert!(N == 0 || b.start + b.size <= N, "[C07] make_contiguous: contents not contiguous afterwards");
-    { let (x, y) = b.as_slices(); assert!(y.len() == 0 && x.len() == old.len, "[C07] make_contiguous: as_slices still reports two slices"); }
-    assert!(ledger_ok(&new, &Seq::new()), "[C03] make_contiguous: element lost, duplicated or destroyed");
-    if was_contiguous { assert!(relocated(&old_slots, &slots_of(&b), next_id()) == 0, "[C20] make_contiguous relocated elements although the contents were already contiguous"); }
+    check!(new.eq(&old), "[C01] make_contiguous: logical contents changed");
+    if old.len > 0 { check!(ptr0 == slot_ptr(&b, 0), "[C07] make_contiguous: returned slice does not alias the buffer's elements"); }
+    check!(N == 0 || b.start + b.size <= N, "[C07] make_contiguous: contents not contiguous afterwards");
+    { let (x, y) = b.as_slices(); check!(y.len() == 0 && x.len() == old.len, "[C07] make_contiguous: as_slices still reports two slices"); }
+    check!(ledger_ok(&new, &Seq::new()), "[C03] make_contiguous: element lost, duplicated or destroyed");
+    if was_contiguous { check!(relocated(&old_slots, &slots_of(&b), next_id()) == 0, "[C20] make_contiguous relocated elements although the contents were already contiguous"); }
     nd::reached();
     core::mem::forget(b);
 }
@@ -280,19 +280,19 @@ pub(crate) fn c_get<const N: usize>() {
     let old = ids_of(&b);
     let i = nd::any_usize();
     // get / nth_front
-    match b.get(i) { Some(t) => assert!(i < old.len && t.id == old.a[i] && (t as *const Tok) == slot_ptr(&b, i), "[C07] get(i): wrong element or address"),
-                     None => assert!(i >= old.len, "[C07,C11] get(i) returned None for a position inside the contents") }
-    match b.nth_front(i) { Some(t) => assert!(i < old.len && (t as *const Tok) == slot_ptr(&b, i), "[C07] nth_front(i): wrong element or address"),
-                           None => assert!(i >= old.len, "[C07] nth_front(i) returned None for a position inside the contents") }
-    match b.nth_back(i) { Some(t) => assert!(i < old.len && (t as *const Tok) == slot_ptr(&b, old.len - 1 - i), "[C07] nth_back(i): wrong element or address"),
-                          None => assert!(i >= old.len, "[C07] nth_back(i) returned None for a position inside the contents") }
-    match b.front() { Some(t) => assert!(old.len > 0 && (t as *const Tok) == slot_ptr(&b, 0), "[C07] front(): wrong element or address"),
-                      None => assert!(old.len == 0, "[C07] front() returned None on a non-empty buffer") }
-    match b.back() { Some(t) => assert!(old.len > 0 && (t as *const Tok) == slot_ptr(&b, old.len - 1), "[C07] back(): wrong element or address"),
-                     None => assert!(old.len == 0, "[C07] back() returned None on a non-empty buffer") }
-    if i < old.len { let t = &b[i]; assert!((t as *const Tok) == slot_ptr(&b, i), "[C07] index(i): wrong element or address"); }
-    assert!(b.len() == old.len && b.capacity() == N, "[C01,C07] len()/capacity() disagree with the contents");
-    assert!(ids_of(&b).eq(&old), "[C07] read accessor changed the buffer");
+    match b.get(i) { Some(t) => check!(i < old.len && t.id == old.a[i] && (t as *const Tok) == slot_ptr(&b, i), "[C07] get(i): wrong element or address"),
+                     None => check!(i >= old.len, "[C07,C11] get(i) returned None for a position inside the contents") }
+    match b.nth_front(i) { Some(t) => check!(i < old.len && (t as *const Tok) == slot_ptr(&b, i), "[C07] nth_front(i): wrong element or address"),
+                           None => check!(i >= old.len, "[C07] nth_front(i) returned None for a position inside the contents") }
+    match b.nth_back(i) { Some(t) => check!(i < old.len && (t as *const Tok) == slot_ptr(&b, old.len - 1 - i), "[C07] nth_back(i): wrong element or address"),
+                          None => check!(i >= old.len, "[C07] nth_back(i) returned None for a position inside the contents") }
+    match b.front() { Some(t) => check!(old.len > 0 && (t as *const Tok) == slot_ptr(&b, 0), "[C07] front(): wrong element or address"),
+                      None => check!(old.len == 0, "[C07] front() returned None on a non-empty buffer") }
+    match b.back() { Some(t) => check!(old.len > 0 && (t as *const Tok) == slot_ptr(&b, old.len - 1), "[C07] back(): wrong element or address"),
+                     None => check!(old.len == 0, "[C07] back() returned None on a non-empty buffer") }
+    if i < old.len { let t = &b[i]; check!((t as *const Tok) == slot_ptr(&b, i), "[C07] index(i): wrong element or address"); }
+    check!(b.len() == old.len && b.capacity() == N, "[C01,C07] len()/capacity() disagree with the contents");
+    check!(ids_of(&b).eq(&old), "[C07] read accessor changed the buffer");
     nd::reached();
     core::mem::forget(b);
 }
@@ -312,17 +312,17 @@ pub(crate) fn c_get_mut<const N: usize>() {
         _ => { if i < old.len { (Some(&mut b[i] as *mut Tok), Some(i)) } else { (None, None) } }
     };
     match (got, want_idx) {
-        (Some(p), Some(k)) => assert!(p as *const Tok == slot_ptr(&b, k), "[C07] mutable accessor does not address exactly the requested element"),
+        (Some(p), Some(k)) => check!(p as *const Tok == slot_ptr(&b, k), "[C07] mutable accessor does not address exactly the requested element"),
         (None, None) => {},
-        _ => assert!(false, "[C07] mutable accessor: Some/None does not match the contents"),
+        _ => check!(false, "[C07] mutable accessor: Some/None does not match the contents"),
     }
-    assert!(b.start == st && b.size == sz && ids_of(&b).eq(&old), "[C01,C07] mutable accessor changed the buffer by itself");
+    check!(b.start == st && b.size == sz && ids_of(&b).eq(&old), "[C01,C07] mutable accessor changed the buffer by itself");
     // a write through the reference changes exactly that position
     if let (Some(p), Some(k)) = (got, want_idx) {
         unsafe { (*p).id = 63; }
         let new = ids_of(&b);
         let mut m = old; m.a[k] = 63;
-        assert!(new.eq(&m), "[C01,C07] write through a mutable accessor changed a different position");
+        check!(new.eq(&m), "[C01,C07] write through a mutable accessor changed a different position");
     }
     nd::reached();
     core::mem::forget(b);
@@ -333,12 +333,12 @@ pub(crate) fn c_as_slices<const N: usize>() {
     let old = ids_of(&b);
     {
         let (x, y) = b.as_slices();
-        assert!(x.len() + y.len() == old.len, "[C07] as_slices: total length differs from len()");
-        assert!(old.len == 0 || x.len() > 0, "[C07,C14] as_slices: first slice empty although the buffer is not");
+        check!(x.len() + y.len() == old.len, "[C07] as_slices: total length differs from len()");
+        check!(old.len == 0 || x.len() > 0, "[C07,C14] as_slices: first slice empty although the buffer is not");
         let mut i = 0;
         while i < old.len {
             let t = if i < x.len() { &x[i] } else { &y[i - x.len()] };
-            assert!(t.id == old.a[i] && (t as *const Tok) == slot_ptr(&b, i), "[C07] as_slices: concatenation is not the contents in order");
+            check!(t.id == old.a[i] && (t as *const Tok) == slot_ptr(&b, i), "[C07] as_slices: concatenation is not the contents in order");
             i += 1;
         }
     }
@@ -346,15 +346,15 @@ pub(crate) fn c_as_slices<const N: usize>() {
         let (x, y) = b.as_mut_slices();
         let (xl, yl) = (x.len(), y.len());
         let (xp, yp) = (x.as_ptr(), y.as_ptr());
-        assert!(xl + yl == old.len, "[C07] as_mut_slices: total length differs from len()");
+        check!(xl + yl == old.len, "[C07] as_mut_slices: total length differs from len()");
         let mut i = 0;
         while i < old.len {
             let p = if i < xl { unsafe { xp.add(i) } } else { unsafe { yp.add(i - xl) } };
-            assert!(p == slot_ptr(&b, i), "[C07] as_mut_slices: does not alias exactly the elements in order");
+            check!(p == slot_ptr(&b, i), "[C07] as_mut_slices: does not alias exactly the elements in order");
             i += 1;
         }
     }
-    assert!(ids_of(&b).eq(&old), "[C07] slice views changed the buffer");
+    check!(ids_of(&b).eq(&old), "[C07] slice views changed the buffer");
     nd::reached();
     core::mem::forget(b);
 }
@@ -364,32 +364,32 @@ pub(crate) fn c_iter_views<const N: usize>() {
     let old = ids_of(&b);
     {
         let mut it = b.iter();
-        assert!(it.len() == old.len, "[C07,C08] iter().len() differs from len()");
+        check!(it.len() == old.len, "[C07,C08] iter().len() differs from len()");
         let mut i = 0;
         while i < old.len {
-            match it.next() { Some(t) => assert!(t.id == old.a[i] && (t as *const Tok) == slot_ptr(&b, i), "[C07,C08] iter(): wrong element at this position"),
-                              None => assert!(false, "[C07,C08] iter() ended early") }
+            match it.next() { Some(t) => check!(t.id == old.a[i] && (t as *const Tok) == slot_ptr(&b, i), "[C07,C08] iter(): wrong element at this position"),
+                              None => check!(false, "[C07,C08] iter() ended early") }
             i += 1;
         }
-        assert!(it.next().is_none() && it.next_back().is_none(), "[C07,C08] iter() yields more than the contents");
+        check!(it.next().is_none() && it.next_back().is_none(), "[C07,C08] iter() yields more than the contents");
     }
     {
         let mut ptrs = [core::ptr::null::<Tok>(); CAP];
         let mut k = 0;
         {
             let mut it = b.iter_mut();
-            assert!(it.len() == old.len, "[C07,C08] iter_mut().len() differs from len()");
-            while let Some(t) = it.next() { assert!(k < old.len, "[C07,C08] iter_mut() yields more than the contents"); ptrs[k] = t as *mut Tok as *const Tok; k += 1; }
+            check!(it.len() == old.len, "[C07,C08] iter_mut().len() differs from len()");
+            while let Some(t) = it.next() { check!(k < old.len, "[C07,C08] iter_mut() yields more than the contents"); ptrs[k] = t as *mut Tok as *const Tok; k += 1; }
         }
-        assert!(k == old.len, "[C07,C08] iter_mut() ended early");
-        let mut i = 0; while i < old.len { assert!(ptrs[i] == slot_ptr(&b, i), "[C07,C08] iter_mut(): does not address the elements in order, pairwise distinct"); i += 1; }
+        check!(k == old.len, "[C07,C08] iter_mut() ended early");
+        let mut i = 0; while i < old.len { check!(ptrs[i] == slot_ptr(&b, i), "[C07,C08] iter_mut(): does not address the elements in order, pairwise distinct"); i += 1; }
     }
     {
         let mut it = (&b).into_iter();
-        let mut i = 0; while i < old.len { assert!(it.next().map(|t| t.id) == Some(old.a[i]), "[C07,C08] (&buf).into_iter(): wrong element"); i += 1; }
-        assert!(it.next().is_none(), "[C07,C08] (&buf).into_iter() yields more than the contents");
+        let mut i = 0; while i < old.len { check!(it.next().map(|t| t.id) == Some(old.a[i]), "[C07,C08] (&buf).into_iter(): wrong element"); i += 1; }
+        check!(it.next().is_none(), "[C07,C08] (&buf).into_iter() yields more than the contents");
     }
-    assert!(ids_of(&b).eq(&old), "[C07] iterators changed the buffer");
+    check!(ids_of(&b).eq(&old), "[C07] iterators changed the buffer");
     nd::reached();
     core::mem::forget(b);
 }
@@ -407,14 +407,14 @@ pub(crate) fn c_fill_spare<const N: usize>() {
     unwatch();
     post_common(&b, "fill_spare");
     let new = ids_of(&b);
-    assert!(new.len == N && b.is_full(), "[C01] fill_spare: buffer not full afterwards");
+    check!(new.len == N && b.is_full(), "[C01] fill_spare: buffer not full afterwards");
     let mut i = 0;
     while i < new.len {
-        if i < old.len { assert!(new.a[i] == old.a[i], "[C01] fill_spare: existing element changed"); }
-        else { assert!(is_value_or_clone(new.a[i], vid), "[C01] fill_spare: free slot not filled with the value or a clone of it"); }
+        if i < old.len { check!(new.a[i] == old.a[i], "[C01] fill_spare: existing element changed"); }
+        else { check!(is_value_or_clone(new.a[i], vid), "[C01] fill_spare: free slot not filled with the value or a clone of it"); }
         i += 1;
     }
-    assert!(ledger_ok(&new, &Seq::new()), "[C03] fill_spare: element lost, duplicated, leaked or destroyed twice");
+    check!(ledger_ok(&new, &Seq::new()), "[C03] fill_spare: element lost, duplicated, leaked or destroyed twice");
     nd::reached();
     core::mem::forget(b);
 }
@@ -428,9 +428,9 @@ pub(crate) fn c_fill<const N: usize>() {
     unwatch();
     post_common(&b, "fill");
     let new = ids_of(&b);
-    assert!(new.len == N && b.is_full(), "[C01] fill: buffer not full afterwards");
-    let mut i = 0; while i < new.len { assert!(is_value_or_clone(new.a[i], vid), "[C01] fill: position does not hold the value or a clone of it"); i += 1; }
-    assert!(ledger_ok(&new, &Seq::new()), "[C03] fill: old element leaked / element destroyed twice");
+    check!(new.len == N && b.is_full(), "[C01] fill: buffer not full afterwards");
+    let mut i = 0; while i < new.len { check!(is_value_or_clone(new.a[i], vid), "[C01] fill: position does not hold the value or a clone of it"); i += 1; }
+    check!(ledger_ok(&new, &Seq::new()), "[C03] fill: old element leaked / element destroyed twice");
     nd::reached();
     core::mem::forget(b);
 }
@@ -445,26 +445,38 @@ pub(crate) fn c_fill_with<const N: usize>() {
     unwatch();
     post_common(&b, "fill_with");
     let new = ids_of(&b);
-    assert!(new.len == N && b.is_full(), "[C01] fill_with/fill_spare_with: buffer not full afterwards");
+    check!(new.len == N && b.is_full(), "[C01] fill_with/fill_spare_with: buffer not full afterwards");
     let keep = if spare_only { old.len } else { 0 };
     let mut i = 0;
     while i < new.len {
-        if i < keep { assert!(new.a[i] == old.a[i], "[C01] fill_spare_with: existing element changed"); }
-        else { assert!(new.a[i] as usize == first + (i - keep), "[C01] fill_with/fill_spare_with: generated elements not stored in call order"); }
+        if i < keep { check!(new.a[i] == old.a[i], "[C01] fill_spare_with: existing element changed"); }
+        else { check!(new.a[i] as usize == first + (i - keep), "[C01] fill_with/fill_spare_with: generated elements not stored in call order"); }
         i += 1;
     }
-    assert!(next_id() == first + (N - keep), "[C01] fill_with/fill_spare_with: closure called a wrong number of times");
-    assert!(ledger_ok(&new, &Seq::new()), "[C03] fill_with/fill_spare_with: element lost, duplicated, leaked or destroyed twice");
+    check!(next_id() == first + (N - keep), "[C01] fill_with/fill_spare_with: closure called a wrong number of times");
+    check!(ledger_ok(&new, &Seq::new()), "[C03] fill_with/fill_spare_with: element lost, duplicated, leaked or destroyed twice");
     nd::reached();
     core::mem::forget(b);
 }
 
 // ----- bulk insertion and conversions (C01 C03 C06 C12) -------------------------------------
 
-pub(crate) struct TokIter { pub left: usize }
+/// iterator of fresh tokens with an arbitrary (but valid) size_hint: lower <= remaining <= upper
+pub(crate) struct TokIter { pub left: usize, pub slack_lo: usize, pub slack_hi: Option<usize> }
+impl TokIter {
+    pub fn any(n: usize) -> TokIter {
+        let slack_lo = nd::usize_in(0, 1);
+        let slack_hi = if nd::any_bool() { Some(nd::usize_in(0, 2)) } else { None };
+        TokIter { left: n, slack_lo, slack_hi }
+    }
+}
 impl Iterator for TokIter {
     type Item = Tok;
     fn next(&mut self) -> Option<Tok> { callback_entry(); if self.left == 0 { None } else { self.left -= 1; Some(Tok::fresh()) } }
+    fn size_hint(&self) -> (usize, Option<usize>) {
+        let lo = if self.left >= self.slack_lo { self.left - self.slack_lo } else { 0 };
+        (lo, self.slack_hi.map(|s| self.left + s))
+    }
 }
 
 pub(crate) fn c_extend<const N: usize>() {
@@ -473,14 +485,14 @@ pub(crate) fn c_extend<const N: usize>() {
     let old = ids_of(&b);
     let n = nd::usize_in(0, N + 2);
     let first = next_id();
-    b.extend(TokIter { left: n });
+    b.extend(TokIter::any(n));
     unwatch();
     post_common(&b, "extend");
     let new = ids_of(&b);
     let mut m = old; let mut k = 0; while k < n { m.push((first + k) as u8); k += 1; }
     m.keep_last(N);
-    assert!(new.eq(&m), "[C01,C12] extend: contents are not the last N of (old contents ++ items)");
-    assert!(ledger_ok(&new, &Seq::new()), "[C03,C12] extend: evicted element not destroyed exactly once / element lost");
+    check!(new.eq(&m), "[C01,C12] extend: contents are not the last N of (old contents ++ items)");
+    check!(ledger_ok(&new, &Seq::new()), "[C03,C12] extend: evicted element not destroyed exactly once / element lost");
     nd::reached();
     core::mem::forget(b);
 }
@@ -488,13 +500,13 @@ pub(crate) fn c_extend<const N: usize>() {
 pub(crate) fn c_from_iter<const N: usize>() {
     let n = nd::usize_in(0, N + 2);
     let first = next_id();
-    let b: CircularBuffer<N, Tok> = TokIter { left: n }.collect();
+    let b: CircularBuffer<N, Tok> = TokIter::any(n).collect();
     post_common(&b, "from_iter");
     let new = ids_of(&b);
     let mut m = Seq::new(); let mut k = 0; while k < n { m.push((first + k) as u8); k += 1; }
     m.keep_last(N);
-    assert!(new.eq(&m), "[C12] from_iter: contents are not the last N items in order");
-    assert!(ledger_ok(&new, &Seq::new()), "[C03,C12] from_iter: discarded item not destroyed exactly once / element lost");
+    check!(new.eq(&m), "[C12] from_iter: contents are not the last N items in order");
+    check!(ledger_ok(&new, &Seq::new()), "[C03,C12] from_iter: discarded item not destroyed exactly once / element lost");
     nd::reached();
     core::mem::forget(b);
 }
@@ -512,18 +524,18 @@ pub(crate) fn c_extend_from_slice<const N: usize, const L: usize>() {
     let new = ids_of(&b);
     let total = old.len + n;
     let keep = if total < N { total } else { N };
-    assert!(new.len == keep, "[C01] extend_from_slice: wrong length");
+    check!(new.len == keep, "[C01] extend_from_slice: wrong length");
     let skip = total - keep;
     let mut i = 0;
     while i < keep && i < new.len {
         let j = skip + i;
         let id = new.a[i] as usize;
-        if j < old.len { assert!(id == old.a[j] as usize, "[C01] extend_from_slice: surviving old element missing or out of order"); }
-        else { assert!(id < MAXID && id >= first_src + L && parent(id) as usize == first_src + (j - old.len), "[C01] extend_from_slice: position does not hold a fresh clone of the right slice element"); }
+        if j < old.len { check!(id == old.a[j] as usize, "[C01] extend_from_slice: surviving old element missing or out of order"); }
+        else { check!(id < MAXID && id >= first_src + L && parent(id) as usize == first_src + (j - old.len), "[C01] extend_from_slice: position does not hold a fresh clone of the right slice element"); }
         i += 1;
     }
     let mut held = Seq::new(); let mut k = 0; while k < L { held.push(src[k].id); k += 1; }
-    assert!(ledger_ok(&new, &held), "[C03] extend_from_slice: evicted element not destroyed exactly once / clone leaked or duplicated");
+    check!(ledger_ok(&new, &held), "[C03] extend_from_slice: evicted element not destroyed exactly once / clone leaked or duplicated");
     nd::reached();
     core::mem::forget(b); core::mem::forget(src);
 }
@@ -534,25 +546,25 @@ pub(crate) fn c_from_array<const N: usize, const M: usize>() {
     post_common(&b, "from(array)");
     let new = ids_of(&b);
     let keep = if M < N { M } else { N };
-    assert!(new.len == keep, "[C12] From<[T; M]>: wrong length");
-    let mut i = 0; while i < keep && i < new.len { assert!(new.a[i] as usize == M - keep + i, "[C12] From<[T; M]>: contents are not the last N array elements in order"); i += 1; }
-    assert!(ledger_ok(&new, &Seq::new()), "[C03,C12] From<[T; M]>: discarded prefix not destroyed exactly once / element duplicated");
+    check!(new.len == keep, "[C12] From<[T; M]>: wrong length");
+    let mut i = 0; while i < keep && i < new.len { check!(new.a[i] as usize == M - keep + i, "[C12] From<[T; M]>: contents are not the last N array elements in order"); i += 1; }
+    check!(ledger_ok(&new, &Seq::new()), "[C03,C12] From<[T; M]>: discarded prefix not destroyed exactly once / element duplicated");
     nd::reached();
     core::mem::forget(b);
 }
 
 pub(crate) fn c_new<const N: usize>() {
     let b = CircularBuffer::<N, Tok>::new();
-    assert!(wf(&b) && b.len() == 0 && b.is_empty() && b.capacity() == N, "[C12] new(): not an empty buffer of capacity N");
+    check!(wf(&b) && b.len() == 0 && b.is_empty() && b.capacity() == N, "[C12] new(): not an empty buffer of capacity N");
     let d: CircularBuffer<N, Tok> = Default::default();
-    assert!(wf(&d) && d.len() == 0 && d.is_empty(), "[C12] default(): not an empty buffer");
+    check!(wf(&d) && d.len() == 0 && d.is_empty(), "[C12] default(): not an empty buffer");
     nd::reached();
 }
 
 #[cfg(feature = "alloc")]
 pub(crate) fn c_boxed<const N: usize>() {
     let b = CircularBuffer::<N, Tok>::boxed();
-    assert!(wf(&*b) && b.len() == 0 && b.is_empty() && b.capacity() == N, "[C12] boxed(): not an empty buffer of capacity N");
+    check!(wf(&*b) && b.len() == 0 && b.is_empty() && b.capacity() == N, "[C12] boxed(): not an empty buffer of capacity N");
     nd::reached();
 }
 
@@ -565,16 +577,16 @@ pub(crate) fn c_clone<const N: usize>() {
     unwatch();
     post_common(&c, "clone");
     let cn = ids_of(&c);
-    assert!(ids_of(&b).eq(&old), "[C12] clone: source changed");
-    assert!(cn.len == old.len, "[C12] clone: wrong length");
+    check!(ids_of(&b).eq(&old), "[C12] clone: source changed");
+    check!(cn.len == old.len, "[C12] clone: wrong length");
     let mut i = 0;
     while i < old.len && i < cn.len {
         let id = cn.a[i] as usize;
-        assert!(id >= first && id < MAXID && parent(id) == old.a[i], "[C12] clone: position is not a fresh clone of the source element at the same position");
+        check!(id >= first && id < MAXID && parent(id) == old.a[i], "[C12] clone: position is not a fresh clone of the source element at the same position");
         i += 1;
     }
     let mut both = old; let mut k = 0; while k < cn.len { both.push(cn.a[k]); k += 1; }
-    assert!(ledger_ok(&both, &Seq::new()), "[C03,C12] clone: element shared, lost or destroyed");
+    check!(ledger_ok(&both, &Seq::new()), "[C03,C12] clone: element shared, lost or destroyed");
     nd::reached();
     core::mem::forget(b); core::mem::forget(c);
 }
@@ -589,16 +601,16 @@ pub(crate) fn c_clone_from<const N: usize>() {
     unwatch();
     post_common(&dst, "clone_from");
     let dn = ids_of(&dst);
-    assert!(ids_of(&src).eq(&old_src), "[C12] clone_from: source changed");
-    assert!(dn.len == old_src.len, "[C12] clone_from: wrong length");
+    check!(ids_of(&src).eq(&old_src), "[C12] clone_from: source changed");
+    check!(dn.len == old_src.len, "[C12] clone_from: wrong length");
     let mut i = 0;
     while i < old_src.len && i < dn.len {
         let id = dn.a[i] as usize;
-        assert!(id >= first && id < MAXID && parent(id) == old_src.a[i], "[C12] clone_from: position is not a fresh clone of the source element at the same position");
+        check!(id >= first && id < MAXID && parent(id) == old_src.a[i], "[C12] clone_from: position is not a fresh clone of the source element at the same position");
         i += 1;
     }
     let mut both = old_src; let mut k = 0; while k < dn.len { both.push(dn.a[k]); k += 1; }
-    assert!(ledger_ok(&both, &Seq::new()), "[C03,C12] clone_from: old contents not destroyed exactly once / element shared or lost");
+    check!(ledger_ok(&both, &Seq::new()), "[C03,C12] clone_from: old contents not destroyed exactly once / element shared or lost");
     nd::reached();
     core::mem::forget(dst); core::mem::forget(src);
 }
@@ -611,17 +623,17 @@ pub(crate) fn c_to_vec<const N: usize>() {
     let first = next_id();
     let v = b.to_vec();
     unwatch();
-    assert!(ids_of(&b).eq(&old), "[C12] to_vec: source changed");
-    assert!(v.len() == old.len, "[C07,C12] to_vec: wrong length");
+    check!(ids_of(&b).eq(&old), "[C12] to_vec: source changed");
+    check!(v.len() == old.len, "[C07,C12] to_vec: wrong length");
     let mut both = old;
     let mut i = 0;
     while i < old.len && i < v.len() {
         let id = v[i].id as usize;
-        assert!(id >= first && id < MAXID && parent(id) == old.a[i], "[C07,C12] to_vec: element is not a fresh clone of the element at the same position");
+        check!(id >= first && id < MAXID && parent(id) == old.a[i], "[C07,C12] to_vec: element is not a fresh clone of the element at the same position");
         both.push(v[i].id);
         i += 1;
     }
-    assert!(ledger_ok(&both, &Seq::new()), "[C03,C12] to_vec: element shared, lost or destroyed");
+    check!(ledger_ok(&both, &Seq::new()), "[C03,C12] to_vec: element shared, lost or destroyed");
     nd::reached();
     core::mem::forget(b); core::mem::forget(v);
 }
@@ -635,21 +647,21 @@ pub(crate) fn c_into_iter<const N: usize>() {
     let steps = nd::usize_in(0, N + 1);
     let mut k = 0;
     while k < steps {
-        assert!(it.len() == m.len && it.size_hint() == (m.len, Some(m.len)), "[C08] into_iter: len()/size_hint() differ from the number of elements not yet produced");
+        check!(it.len() == m.len && it.size_hint() == (m.len, Some(m.len)), "[C08] into_iter: len()/size_hint() differ from the number of elements not yet produced");
         if nd::any_bool() {
             let r = it.next(); let mr = m.pop_front();
-            assert!(opt_id(&r) == mr, "[C08,C12] into_iter: next() does not yield the front-most remaining element");
+            check!(opt_id(&r) == mr, "[C08,C12] into_iter: next() does not yield the front-most remaining element");
             if let Some(t) = r { held.push(t.id); core::mem::forget(t); }
         } else {
             let r = it.next_back(); let mr = m.pop_back();
-            assert!(opt_id(&r) == mr, "[C08,C12] into_iter: next_back() does not yield the back-most remaining element");
+            check!(opt_id(&r) == mr, "[C08,C12] into_iter: next_back() does not yield the back-most remaining element");
             if let Some(t) = r { held.push(t.id); core::mem::forget(t); }
         }
         k += 1;
     }
-    assert!(ledger_ok(&m, &held), "[C03] into_iter: element lost, duplicated or destroyed while iterating");
+    check!(ledger_ok(&m, &held), "[C03] into_iter: element lost, duplicated or destroyed while iterating");
     drop(it);
-    assert!(ledger_ok(&Seq::new(), &held), "[C03,C12] into_iter: remaining elements not destroyed exactly once when the iterator is dropped");
+    check!(ledger_ok(&Seq::new(), &held), "[C03,C12] into_iter: remaining elements not destroyed exactly once when the iterator is dropped");
     nd::reached();
 }
 
@@ -686,28 +698,28 @@ pub(crate) fn c_iter_script<const N: usize>() {
     let clone_at = nd::usize_in(0, N + 1);
     let mut k = 0;
     while k < steps {
-        assert!(it.len() == m.len && it.size_hint() == (m.len, Some(m.len)), "[C08] iter/range: len()/size_hint() differ from the number of elements not yet produced");
+        check!(it.len() == m.len && it.size_hint() == (m.len, Some(m.len)), "[C08] iter/range: len()/size_hint() differ from the number of elements not yet produced");
         if k == clone_at {
             // a clone continues independently from the same point
             let mut c = it.clone();
             let r1 = c.next().map(|t| t.id);
-            assert!(r1 == m.get(0) && it.len() == m.len, "[C08] iter/range: clone does not continue from the same point, or advancing it moved the original");
+            check!(r1 == m.get(0) && it.len() == m.len, "[C08] iter/range: clone does not continue from the same point, or advancing it moved the original");
         }
         if nd::any_bool() {
             let r = it.next(); let mr = m.pop_front();
-            match r { Some(t) => { assert!(mr == Some(t.id) && (t as *const Tok) == slot_ptr(&b, pos_front), "[C07,C08] iter/range: next() is not the front-most selected element not yet produced"); pos_front += 1; }
-                      None => assert!(mr.is_none(), "[C08] iter/range: next() returned None before every selected element was produced") }
+            match r { Some(t) => { check!(mr == Some(t.id) && (t as *const Tok) == slot_ptr(&b, pos_front), "[C07,C08] iter/range: next() is not the front-most selected element not yet produced"); pos_front += 1; }
+                      None => check!(mr.is_none(), "[C08] iter/range: next() returned None before every selected element was produced") }
         } else {
             let r = it.next_back(); let mr = m.pop_back();
-            match r { Some(t) => { pos_back -= 1; assert!(mr == Some(t.id) && (t as *const Tok) == slot_ptr(&b, pos_back), "[C07,C08] iter/range: next_back() is not the back-most selected element not yet produced"); }
-                      None => assert!(mr.is_none(), "[C08] iter/range: next_back() returned None before every selected element was produced") }
+            match r { Some(t) => { pos_back -= 1; check!(mr == Some(t.id) && (t as *const Tok) == slot_ptr(&b, pos_back), "[C07,C08] iter/range: next_back() is not the back-most selected element not yet produced"); }
+                      None => check!(mr.is_none(), "[C08] iter/range: next_back() returned None before every selected element was produced") }
         }
         k += 1;
     }
-    if m.len == 0 { assert!(it.next().is_none() && it.next_back().is_none() && it.next().is_none() && it.len() == 0, "[C08] iter/range: exhausted iterator is not fused (None forever)"); }
+    if m.len == 0 { check!(it.next().is_none() && it.next_back().is_none() && it.next().is_none() && it.len() == 0, "[C08] iter/range: exhausted iterator is not fused (None forever)"); }
     let d: Iter<'_, Tok> = Default::default();
-    assert!(d.len() == 0 && d.clone().next().is_none(), "[C08] Iter::default() is not empty");
-    assert!(ids_of(&b).eq(&old), "[C07,C08] iterating changed the buffer");
+    check!(d.len() == 0 && d.clone().next().is_none(), "[C08] Iter::default() is not empty");
+    check!(ids_of(&b).eq(&old), "[C07,C08] iterating changed the buffer");
     nd::reached();
     core::mem::forget(b);
 }
@@ -729,23 +741,23 @@ pub(crate) fn c_iter_mut_script<const N: usize>() {
         let steps = nd::usize_in(0, N + 1);
         let mut k = 0;
         while k < steps {
-            assert!(it.len() == m.len && it.size_hint() == (m.len, Some(m.len)), "[C08] iter_mut/range_mut: len()/size_hint() differ from the number of elements not yet produced");
+            check!(it.len() == m.len && it.size_hint() == (m.len, Some(m.len)), "[C08] iter_mut/range_mut: len()/size_hint() differ from the number of elements not yet produced");
             if nd::any_bool() {
                 let r = it.next(); let mr = m.pop_front();
-                match r { Some(t) => { assert!(mr == Some(t.id) && (t as *mut Tok as *const Tok) == unsafe { base.add(phys(st, pos_front, N)) }, "[C07,C08] iter_mut/range_mut: next() does not address the front-most selected element not yet produced"); pos_front += 1; }
-                          None => assert!(mr.is_none(), "[C08] iter_mut/range_mut: next() returned None early") }
+                match r { Some(t) => { check!(mr == Some(t.id) && (t as *mut Tok as *const Tok) == unsafe { base.add(phys(st, pos_front, N)) }, "[C07,C08] iter_mut/range_mut: next() does not address the front-most selected element not yet produced"); pos_front += 1; }
+                          None => check!(mr.is_none(), "[C08] iter_mut/range_mut: next() returned None early") }
             } else {
                 let r = it.next_back(); let mr = m.pop_back();
-                match r { Some(t) => { pos_back -= 1; assert!(mr == Some(t.id) && (t as *mut Tok as *const Tok) == unsafe { base.add(phys(st, pos_back, N)) }, "[C07,C08] iter_mut/range_mut: next_back() does not address the back-most selected element not yet produced"); }
-                          None => assert!(mr.is_none(), "[C08] iter_mut/range_mut: next_back() returned None early") }
+                match r { Some(t) => { pos_back -= 1; check!(mr == Some(t.id) && (t as *mut Tok as *const Tok) == unsafe { base.add(phys(st, pos_back, N)) }, "[C07,C08] iter_mut/range_mut: next_back() does not address the back-most selected element not yet produced"); }
+                          None => check!(mr.is_none(), "[C08] iter_mut/range_mut: next_back() returned None early") }
             }
             k += 1;
         }
-        if m.len == 0 { assert!(it.next().is_none() && it.next_back().is_none() && it.len() == 0, "[C08] iter_mut/range_mut: exhausted iterator is not fused"); }
+        if m.len == 0 { check!(it.next().is_none() && it.next_back().is_none() && it.len() == 0, "[C08] iter_mut/range_mut: exhausted iterator is not fused"); }
     }
     let d: IterMut<'_, Tok> = Default::default();
-    assert!(d.len() == 0, "[C08] IterMut::default() is not empty");
-    assert!(ids_of(&b).eq(&old), "[C07,C08] iterating changed the buffer");
+    check!(d.len() == 0, "[C08] IterMut::default() is not empty");
+    check!(ids_of(&b).eq(&old), "[C07,C08] iterating changed the buffer");
     nd::reached();
     core::mem::forget(b);
 }
@@ -757,9 +769,9 @@ pub(crate) fn c_range_must_panic<const N: usize>() {
     let (lo, hi) = (any_bound(), any_bound());
     nd::assume(bounds_to_range(lo, hi, len).is_none());
     let which = nd::usize_in(0, 2);
-    if which == 0 { let it = b.range((lo, hi)); assert!(false, "[C11] MUST-PANIC: range() returned although start > end or end > len"); core::mem::forget(it); }
-    else if which == 1 { let it = b.range_mut((lo, hi)); assert!(false, "[C11] MUST-PANIC: range_mut() returned although start > end or end > len"); core::mem::forget(it); }
-    else { let d = b.drain((lo, hi)); assert!(false, "[C11] MUST-PANIC: drain() returned although start > end or end > len"); core::mem::forget(d); }
+    if which == 0 { let it = b.range((lo, hi)); check!(false, "[C11] MUST-PANIC: range() returned although start > end or end > len"); core::mem::forget(it); }
+    else if which == 1 { let it = b.range_mut((lo, hi)); check!(false, "[C11] MUST-PANIC: range_mut() returned although start > end or end > len"); core::mem::forget(it); }
+    else { let d = b.drain((lo, hi)); check!(false, "[C11] MUST-PANIC: drain() returned although start > end or end > len"); core::mem::forget(d); }
     core::mem::forget(b);
 }
 
@@ -768,9 +780,9 @@ pub(crate) fn c_index_must_panic<const N: usize>() {
     let len = b.len();
     let i = nd::any_usize(); let j = nd::any_usize();
     let which = nd::usize_in(0, 2);
-    if which == 0 { nd::assume(i >= len); let t = &b[i]; assert!(false, "[C11] MUST-PANIC: index out of bounds returned a reference"); }
-    else if which == 1 { nd::assume(i >= len); let t = &mut b[i]; assert!(false, "[C11] MUST-PANIC: index_mut out of bounds returned a reference"); }
-    else { nd::assume(i >= len || j >= len); b.swap(i, j); assert!(false, "[C11] MUST-PANIC: swap with an index out of bounds returned"); }
+    if which == 0 { nd::assume(i >= len); let t = &b[i]; check!(false, "[C11] MUST-PANIC: index out of bounds returned a reference"); }
+    else if which == 1 { nd::assume(i >= len); let t = &mut b[i]; check!(false, "[C11] MUST-PANIC: index_mut out of bounds returned a reference"); }
+    else { nd::assume(i >= len || j >= len); b.swap(i, j); check!(false, "[C11] MUST-PANIC: swap with an index out of bounds returned"); }
     core::mem::forget(b);
 }
 
@@ -789,37 +801,37 @@ pub(crate) fn c_drain<const N: usize>() {
     let mut held = Seq::new();
     {
         let mut d = b.drain((lo, hi));
-        assert!(unsafe { (*bp).size } == 0 && unsafe { wf(&*bp) }, "[C10] drain: the buffer is not empty-and-valid while the drain is alive");
+        check!(unsafe { (*bp).size } == 0 && unsafe { wf(&*bp) }, "[C10] drain: the buffer is not empty-and-valid while the drain is alive");
         let steps = nd::usize_in(0, N + 1);
         let mut k = 0;
         while k < steps {
-            assert!(d.len() == m.len && d.size_hint() == (m.len, Some(m.len)), "[C09] drain: len()/size_hint() differ from the number of elements not yet produced");
+            check!(d.len() == m.len && d.size_hint() == (m.len, Some(m.len)), "[C09] drain: len()/size_hint() differ from the number of elements not yet produced");
             if nd::any_bool() {
                 let r = d.next(); let mr = m.pop_front();
-                assert!(opt_id(&r) == mr, "[C09] drain: next() is not the front-most element of the range not yet produced");
+                check!(opt_id(&r) == mr, "[C09] drain: next() is not the front-most element of the range not yet produced");
                 if let Some(t) = r { held.push(t.id); core::mem::forget(t); }
             } else {
                 let r = d.next_back(); let mr = m.pop_back();
-                assert!(opt_id(&r) == mr, "[C09] drain: next_back() is not the back-most element of the range not yet produced");
+                check!(opt_id(&r) == mr, "[C09] drain: next_back() is not the back-most element of the range not yet produced");
                 if let Some(t) = r { held.push(t.id); core::mem::forget(t); }
             }
-            assert!(unsafe { (*bp).size } == 0, "[C10] drain: the buffer is not empty while the drain is alive");
+            check!(unsafe { (*bp).size } == 0, "[C10] drain: the buffer is not empty while the drain is alive");
             k += 1;
         }
-        if m.len == 0 { assert!(d.next().is_none() && d.next_back().is_none() && d.len() == 0, "[C09] drain: exhausted drain is not fused"); }
+        if m.len == 0 { check!(d.next().is_none() && d.next_back().is_none() && d.len() == 0, "[C09] drain: exhausted drain is not fused"); }
         // nothing destroyed yet, nothing duplicated
         let mut rest = sub_seq(&old, 0, a); rest.append(&m); rest.append(&sub_seq(&old, e, old.len));
-        assert!(ledger_ok(&rest, &held), "[C03,C09] drain: element destroyed or duplicated while draining");
+        check!(ledger_ok(&rest, &held), "[C03,C09] drain: element destroyed or duplicated while draining");
         drop(d);
     }
     unwatch();
     post_common(&b, "drain");
     let new = ids_of(&b);
     let mut want = sub_seq(&old, 0, a); want.append(&sub_seq(&old, e, old.len));
-    assert!(new.eq(&want), "[C01,C09] drain: buffer is not (elements before the range) ++ (elements after the range) in order");
-    assert!(b.len() == old.len - (e - a), "[C01,C09] drain: wrong length afterwards");
-    assert!(ledger_ok(&new, &held), "[C03,C09] drain: a drained element not handed out was not destroyed exactly once (or another element was)");
-    assert!(relocated(&old_slots, &slots_of(&b), next_id()) <= old.len - e, "[C20] drain(i..j) relocates more than len-j surviving elements");
+    check!(new.eq(&want), "[C01,C09] drain: buffer is not (elements before the range) ++ (elements after the range) in order");
+    check!(b.len() == old.len - (e - a), "[C01,C09] drain: wrong length afterwards");
+    check!(ledger_ok(&new, &held), "[C03,C09] drain: a drained element not handed out was not destroyed exactly once (or another element was)");
+    check!(relocated(&old_slots, &slots_of(&b), next_id()) <= old.len - e, "[C20] drain(i..j) relocates more than len-j surviving elements");
     nd::reached();
     core::mem::forget(b);
 }
@@ -851,20 +863,20 @@ pub(crate) fn c_drain_leak<const N: usize>() {
     let mut i = 0;
     while i < new.len {
         let id = new.a[i];
-        assert!(old.contains(id) && !held.contains(id) && drops(id as usize) == 0, "[C10] leaked drain: buffer holds an element that is dead, foreign, or was already handed out");
-        let mut j = 0; while j < i { assert!(new.a[j] != id, "[C10] leaked drain: buffer holds an element twice"); j += 1; }
+        check!(old.contains(id) && !held.contains(id) && drops(id as usize) == 0, "[C10] leaked drain: buffer holds an element that is dead, foreign, or was already handed out");
+        let mut j = 0; while j < i { check!(new.a[j] != id, "[C10] leaked drain: buffer holds an element twice"); j += 1; }
         i += 1;
     }
     // keeps working normally, and nothing is destroyed twice (Tok::drop asserts that)
     let x = Tok::fresh(); let xid = x.id;
     let mut mm = new;
     let r = b.push_back(x); let mr = mm.push_back_capped(xid, N);
-    assert!(opt_id(&r) == mr && ids_of(&b).eq(&mm), "[C10] leaked drain: buffer does not behave like a normal buffer afterwards");
+    check!(opt_id(&r) == mr && ids_of(&b).eq(&mm), "[C10] leaked drain: buffer does not behave like a normal buffer afterwards");
     core::mem::forget(r);
     let snapshot = ids_of(&b);
     unsafe { core::ptr::drop_in_place(&mut b); }
-    let mut i = 0; while i < held.len { assert!(drops(held.a[i] as usize) == 0, "[C10] leaked drain: an element handed out by the drain was destroyed by the buffer"); i += 1; }
-    let mut i = 0; while i < snapshot.len { if snapshot.a[i] != xid || mr.is_none() { assert!(drops(snapshot.a[i] as usize) == 1 || (mr == Some(snapshot.a[i])), "[C10] leaked drain: element of the buffer not destroyed when the buffer is dropped"); } i += 1; }
+    let mut i = 0; while i < held.len { check!(drops(held.a[i] as usize) == 0, "[C10] leaked drain: an element handed out by the drain was destroyed by the buffer"); i += 1; }
+    let mut i = 0; while i < snapshot.len { if snapshot.a[i] != xid || mr.is_none() { check!(drops(snapshot.a[i] as usize) == 1 || (mr == Some(snapshot.a[i])), "[C10] leaked drain: element of the buffer not destroyed when the buffer is dropped"); } i += 1; }
     nd::reached();
     core::mem::forget(b);
 }
@@ -885,9 +897,9 @@ pub(crate) fn c_eq<const N: usize, const M: usize>() {
     let a = any_u8buf::<N>(); let b = any_u8buf::<M>();
     let sa = bytes_of(&a); let sb = bytes_of(&b);
     let same = sa.eq(&sb);
-    assert!((a == b) == same, "[C13] buffer == buffer differs from equality of the element sequences");
-    assert!((b == a) == same, "[C13] buffer == buffer is not symmetric / depends on layout or capacity");
-    assert!(a.partial_cmp(&b) == Some(seq_lex_cmp(&sa, &sb)), "[C13] partial_cmp is not the lexicographic order of the element sequences");
+    check!((a == b) == same, "[C13] buffer == buffer differs from equality of the element sequences");
+    check!((b == a) == same, "[C13] buffer == buffer is not symmetric / depends on layout or capacity");
+    check!(a.partial_cmp(&b) == Some(seq_lex_cmp(&sa, &sb)), "[C13] partial_cmp is not the lexicographic order of the element sequences");
     nd::reached();
 }
 
@@ -900,16 +912,16 @@ pub(crate) fn c_eq_slice<const N: usize, const L: usize>() {
     let mut ss = Seq::new(); let mut i = 0; while i < n { ss.push(arr[i]); i += 1; }
     let same = sa.eq(&ss);
     let sl: &[u8] = &arr[..n];
-    assert!((a == *sl) == same, "[C13] buffer == [U] differs from equality of the element sequences");
-    assert!((a == sl) == same, "[C13] buffer == &[U] differs from equality of the element sequences");
+    check!((a == *sl) == same, "[C13] buffer == [U] differs from equality of the element sequences");
+    check!((a == sl) == same, "[C13] buffer == &[U] differs from equality of the element sequences");
     let mut arr2 = arr;
-    { let slm: &mut [u8] = &mut arr2[..n]; assert!((a == slm) == same, "[C13] buffer == &mut [U] differs from equality of the element sequences"); }
+    { let slm: &mut [u8] = &mut arr2[..n]; check!((a == slm) == same, "[C13] buffer == &mut [U] differs from equality of the element sequences"); }
     // whole-array forms
     let mut sw = Seq::new(); let mut i = 0; while i < L { sw.push(arr[i]); i += 1; }
     let same_w = sa.eq(&sw);
-    assert!((a == arr) == same_w, "[C13] buffer == [U; M] differs from equality of the element sequences");
-    assert!((a == &arr) == same_w, "[C13] buffer == &[U; M] differs from equality of the element sequences");
-    { let am: &mut [u8; L] = &mut arr2; assert!((a == am) == same_w, "[C13] buffer == &mut [U; M] differs from equality of the element sequences"); }
+    check!((a == arr) == same_w, "[C13] buffer == [U; M] differs from equality of the element sequences");
+    check!((a == &arr) == same_w, "[C13] buffer == &[U; M] differs from equality of the element sequences");
+    { let am: &mut [u8; L] = &mut arr2; check!((a == am) == same_w, "[C13] buffer == &mut [U; M] differs from equality of the element sequences"); }
     nd::reached();
 }
 
@@ -925,14 +937,14 @@ pub(crate) fn c_hash_ord<const N: usize>() {
     use core::hash::Hash;
     let a = any_u8buf::<N>(); let b = any_u8buf::<N>();
     let sa = bytes_of(&a); let sb = bytes_of(&b);
-    assert!(a.cmp(&b) == seq_lex_cmp(&sa, &sb), "[C13] cmp is not the lexicographic order of the element sequences");
+    check!(a.cmp(&b) == seq_lex_cmp(&sa, &sb), "[C13] cmp is not the lexicographic order of the element sequences");
     let mut ha = RecHasher { log: Seq::new(), words: [0; CAP], nw: 0 };
     let mut hb = RecHasher { log: Seq::new(), words: [0; CAP], nw: 0 };
     a.hash(&mut ha); b.hash(&mut hb);
     if sa.eq(&sb) {
         let mut same = ha.log.eq(&hb.log) && ha.nw == hb.nw;
         let mut i = 0; while i < ha.nw && i < hb.nw { if ha.words[i] != hb.words[i] { same = false; } i += 1; }
-        assert!(same, "[C13] equal buffers of the same capacity feed different data to the Hasher (hash depends on layout)");
+        check!(same, "[C04,C13] equal buffers of the same capacity feed different data to the Hasher (hash depends on layout)");
     }
     nd::reached();
 }
@@ -947,13 +959,13 @@ pub(crate) fn c_io_write<const N: usize, const L: usize>() {
     let mut src = [0u8; L]; let mut i = 0; while i < L { src[i] = nd::any_u8(); i += 1; }
     let n = nd::usize_in(0, L);
     let r = b.write(&src[..n]);
-    assert!(wf(&b), "[C14] write: representation invariant broken");
-    match r { Ok(k) => assert!(k == n, "[C14] write did not report the full input length"), Err(_) => assert!(false, "[C14] write returned an error") }
+    check!(wf(&b), "[C14] write: representation invariant broken");
+    match r { Ok(k) => check!(k == n, "[C14] write did not report the full input length"), Err(_) => check!(false, "[C14] write returned an error") }
     let mut m = old; let mut i = 0; while i < n { m.push(src[i]); i += 1; }
     m.keep_last(N);
-    assert!(bytes_of(&b).eq(&m), "[C14] write: buffer does not hold the last N bytes of (old contents ++ input)");
-    assert!(b.flush().is_ok(), "[C14] flush returned an error");
-    assert!(bytes_of(&b).eq(&m), "[C14] flush changed the buffer");
+    check!(bytes_of(&b).eq(&m), "[C14] write: buffer does not hold the last N bytes of (old contents ++ input)");
+    check!(b.flush().is_ok(), "[C14] flush returned an error");
+    check!(bytes_of(&b).eq(&m), "[C14] flush changed the buffer");
     nd::reached();
 }
 
@@ -965,12 +977,12 @@ pub(crate) fn c_io_read<const N: usize, const D: usize>() {
     let mut dst = [7u8; D];
     let d = nd::usize_in(0, D);
     let r = b.read(&mut dst[..d]);
-    assert!(wf(&b), "[C14] read: representation invariant broken");
+    check!(wf(&b), "[C14] read: representation invariant broken");
     let want = if d < old.len { d } else { old.len };
-    match r { Ok(k) => assert!(k == want, "[C14] read did not return min(destination length, buffered length)"), Err(_) => assert!(false, "[C14] read returned an error") }
-    let mut i = 0; while i < want { assert!(dst[i] == old.a[i], "[C14] read: bytes delivered are not the front bytes in order"); i += 1; }
+    match r { Ok(k) => check!(k == want, "[C14] read did not return min(destination length, buffered length)"), Err(_) => check!(false, "[C14] read returned an error") }
+    let mut i = 0; while i < want { check!(dst[i] == old.a[i], "[C14] read: bytes delivered are not the front bytes in order"); i += 1; }
     let mut m = old; m.keep_last(old.len - want);
-    assert!(bytes_of(&b).eq(&m), "[C14] read: did not remove exactly the bytes delivered from the front");
+    check!(bytes_of(&b).eq(&m), "[C14] read: did not remove exactly the bytes delivered from the front");
     nd::reached();
 }
 
@@ -983,19 +995,19 @@ pub(crate) fn c_io_bufread<const N: usize>() {
         let r = b.fill_buf();
         match r {
             Ok(s) => {
-                assert!(s.len() <= old.len && (old.len == 0 || s.len() > 0), "[C14] fill_buf: not a non-empty prefix of a non-empty buffer");
-                let mut i = 0; while i < s.len() && i < old.len { assert!(s[i] == old.a[i], "[C14] fill_buf: returned bytes are not a prefix of the contents"); i += 1; }
+                check!(s.len() <= old.len && (old.len == 0 || s.len() > 0), "[C14] fill_buf: not a non-empty prefix of a non-empty buffer");
+                let mut i = 0; while i < s.len() && i < old.len { check!(s[i] == old.a[i], "[C14] fill_buf: returned bytes are not a prefix of the contents"); i += 1; }
             }
-            Err(_) => assert!(false, "[C14] fill_buf returned an error"),
+            Err(_) => check!(false, "[C14] fill_buf returned an error"),
         }
     }
-    assert!(bytes_of(&b).eq(&old), "[C14] fill_buf changed the buffer");
+    check!(bytes_of(&b).eq(&old), "[C14] fill_buf changed the buffer");
     let k = nd::any_usize();
     b.consume(k);
-    assert!(wf(&b), "[C14] consume: representation invariant broken");
+    check!(wf(&b), "[C14] consume: representation invariant broken");
     let want = if k < old.len { k } else { old.len };
     let mut m = old; m.keep_last(old.len - want);
-    assert!(bytes_of(&b).eq(&m), "[C14] consume(k) did not remove exactly the first min(k, len) bytes");
+    check!(bytes_of(&b).eq(&m), "[C14] consume(k) did not remove exactly the first min(k, len) bytes");
     nd::reached();
 }
 
@@ -1014,26 +1026,26 @@ pub(crate) fn c_eio_vs_std<const N: usize, const L: usize>() {
     if op == 0 {
         let ra = std::io::Write::write(&mut a, &src[..n]);
         let rb = ::embedded_io::Write::write(&mut b, &src[..n]);
-        match (ra, rb) { (Ok(x), Ok(y)) => assert!(x == y, "[C16] embedded-io write returns a different count than std::io"), _ => assert!(false, "[C16] write failed") }
+        match (ra, rb) { (Ok(x), Ok(y)) => check!(x == y, "[C16] embedded-io write returns a different count than std::io"), _ => check!(false, "[C16] write failed") }
     } else if op == 1 {
         let mut da = [0u8; L]; let mut db = [0u8; L];
         let ra = std::io::Read::read(&mut a, &mut da[..n]);
         let rb = ::embedded_io::Read::read(&mut b, &mut db[..n]);
-        match (ra, rb) { (Ok(x), Ok(y)) => { assert!(x == y, "[C16] embedded-io read returns a different count than std::io");
-                                             let mut i = 0; while i < x { assert!(da[i] == db[i], "[C16] embedded-io read delivers different bytes than std::io"); i += 1; } }
-                         _ => assert!(false, "[C16] read failed") }
+        match (ra, rb) { (Ok(x), Ok(y)) => { check!(x == y, "[C16] embedded-io read returns a different count than std::io");
+                                             let mut i = 0; while i < x { check!(da[i] == db[i], "[C16] embedded-io read delivers different bytes than std::io"); i += 1; } }
+                         _ => check!(false, "[C16] read failed") }
     } else if op == 2 {
         let la = { let s = std::io::BufRead::fill_buf(&mut a).unwrap(); (s.len(), if s.len() > 0 { s[0] } else { 0 }) };
-        let lb = match ::embedded_io::BufRead::fill_buf(&mut b) { Ok(s) => (s.len(), if s.len() > 0 { s[0] } else { 0 }), Err(_) => { assert!(false, "[C16] embedded-io fill_buf failed"); (0, 0) } };
-        assert!(la == lb, "[C16] embedded-io fill_buf returns a different slice than std::io");
+        let lb = match ::embedded_io::BufRead::fill_buf(&mut b) { Ok(s) => (s.len(), if s.len() > 0 { s[0] } else { 0 }), Err(_) => { check!(false, "[C16] embedded-io fill_buf failed"); (0, 0) } };
+        check!(la == lb, "[C16] embedded-io fill_buf returns a different slice than std::io");
     } else if op == 3 {
         let k = nd::any_usize();
         std::io::BufRead::consume(&mut a, k);
         ::embedded_io::BufRead::consume(&mut b, k);
     } else {
-        assert!(std::io::Write::flush(&mut a).is_ok() && ::embedded_io::Write::flush(&mut b).is_ok(), "[C16] flush failed");
+        check!(std::io::Write::flush(&mut a).is_ok() && ::embedded_io::Write::flush(&mut b).is_ok(), "[C16] flush failed");
     }
-    assert!(wf(&b) && bytes_of(&a).eq(&bytes_of(&b)), "[C16] embedded-io impl leaves different contents than the std::io impl");
+    check!(wf(&b) && bytes_of(&a).eq(&bytes_of(&b)), "[C16] embedded-io impl leaves different contents than the std::io impl");
     nd::reached();
 }
 
@@ -1057,31 +1069,31 @@ pub(crate) fn c_eio_async_vs_std<const N: usize, const L: usize>() {
     if op == 0 {
         let ra = std::io::Write::write(&mut a, &src[..n]);
         match poll_once(::embedded_io_async::Write::write(&mut b, &src[..n])) {
-            Some(Ok(y)) => assert!(ra.is_ok() && ra.unwrap() == y, "[C16] embedded-io-async write returns a different count than std::io"),
-            Some(Err(_)) => assert!(false, "[C16] embedded-io-async write failed"),
-            None => assert!(false, "[C16] embedded-io-async write returned Pending") }
+            Some(Ok(y)) => check!(ra.is_ok() && ra.unwrap() == y, "[C16] embedded-io-async write returns a different count than std::io"),
+            Some(Err(_)) => check!(false, "[C16] embedded-io-async write failed"),
+            None => check!(false, "[C16] embedded-io-async write returned Pending") }
     } else if op == 1 {
         let mut da = [0u8; L]; let mut db = [0u8; L];
         let ra = std::io::Read::read(&mut a, &mut da[..n]);
         match poll_once(::embedded_io_async::Read::read(&mut b, &mut db[..n])) {
-            Some(Ok(y)) => { assert!(ra.is_ok() && ra.unwrap() == y, "[C16] embedded-io-async read returns a different count than std::io");
-                             let mut i = 0; while i < y { assert!(da[i] == db[i], "[C16] embedded-io-async read delivers different bytes than std::io"); i += 1; } }
-            Some(Err(_)) => assert!(false, "[C16] embedded-io-async read failed"),
-            None => assert!(false, "[C16] embedded-io-async read returned Pending") }
+            Some(Ok(y)) => { check!(ra.is_ok() && ra.unwrap() == y, "[C16] embedded-io-async read returns a different count than std::io");
+                             let mut i = 0; while i < y { check!(da[i] == db[i], "[C16] embedded-io-async read delivers different bytes than std::io"); i += 1; } }
+            Some(Err(_)) => check!(false, "[C16] embedded-io-async read failed"),
+            None => check!(false, "[C16] embedded-io-async read returned Pending") }
     } else if op == 2 {
         let la = { let s = std::io::BufRead::fill_buf(&mut a).unwrap(); (s.len(), if s.len() > 0 { s[0] } else { 0 }) };
         match poll_once(::embedded_io_async::BufRead::fill_buf(&mut b)) {
-            Some(Ok(s)) => assert!(la == (s.len(), if s.len() > 0 { s[0] } else { 0 }), "[C16] embedded-io-async fill_buf returns a different slice than std::io"),
-            Some(Err(_)) => assert!(false, "[C16] embedded-io-async fill_buf failed"),
-            None => assert!(false, "[C16] embedded-io-async fill_buf returned Pending") }
+            Some(Ok(s)) => check!(la == (s.len(), if s.len() > 0 { s[0] } else { 0 }), "[C16] embedded-io-async fill_buf returns a different slice than std::io"),
+            Some(Err(_)) => check!(false, "[C16] embedded-io-async fill_buf failed"),
+            None => check!(false, "[C16] embedded-io-async fill_buf returned Pending") }
     } else if op == 3 {
         let k = nd::any_usize();
         std::io::BufRead::consume(&mut a, k);
         ::embedded_io_async::BufRead::consume(&mut b, k);
     } else {
-        match poll_once(::embedded_io_async::Write::flush(&mut b)) { Some(Ok(())) => {}, _ => assert!(false, "[C16] embedded-io-async flush failed or returned Pending") }
+        match poll_once(::embedded_io_async::Write::flush(&mut b)) { Some(Ok(())) => {}, _ => check!(false, "[C16] embedded-io-async flush failed or returned Pending") }
     }
-    assert!(wf(&b) && bytes_of(&a).eq(&bytes_of(&b)), "[C16] embedded-io-async impl leaves different contents than the std::io impl");
+    check!(wf(&b) && bytes_of(&a).eq(&bytes_of(&b)), "[C16] embedded-io-async impl leaves different contents than the std::io impl");
     nd::reached();
 }
 
@@ -1107,22 +1119,22 @@ pub(crate) fn c_zst<const N: usize>() {
     let op = nd::usize_in(0, 9);
     let arg = nd::any_usize();
     let mut len = len0; let mut dropped = 0usize;
-    if op == 0 { let r = b.push_back(Z); if N == 0 || len0 == N { assert!(r.is_some(), "[C19] ZST push_back: displaced element not returned"); } else { assert!(r.is_none(), "[C19] ZST push_back"); len += 1; } core::mem::forget(r); }
-    else if op == 1 { let r = b.push_front(Z); if N == 0 || len0 == N { assert!(r.is_some(), "[C19] ZST push_front: displaced element not returned"); } else { assert!(r.is_none(), "[C19] ZST push_front"); len += 1; } core::mem::forget(r); }
-    else if op == 2 { let r = b.pop_back(); assert!(r.is_some() == (len0 > 0), "[C19] ZST pop_back"); if len0 > 0 { len -= 1; } core::mem::forget(r); }
-    else if op == 3 { let r = b.pop_front(); assert!(r.is_some() == (len0 > 0), "[C19] ZST pop_front"); if len0 > 0 { len -= 1; } core::mem::forget(r); }
-    else if op == 4 { let r = b.remove(arg); assert!(r.is_some() == (arg < len0), "[C19] ZST remove"); if arg < len0 { len -= 1; } core::mem::forget(r); }
+    if op == 0 { let r = b.push_back(Z); if N == 0 || len0 == N { check!(r.is_some(), "[C19] ZST push_back: displaced element not returned"); } else { check!(r.is_none(), "[C19] ZST push_back"); len += 1; } core::mem::forget(r); }
+    else if op == 1 { let r = b.push_front(Z); if N == 0 || len0 == N { check!(r.is_some(), "[C19] ZST push_front: displaced element not returned"); } else { check!(r.is_none(), "[C19] ZST push_front"); len += 1; } core::mem::forget(r); }
+    else if op == 2 { let r = b.pop_back(); check!(r.is_some() == (len0 > 0), "[C19] ZST pop_back"); if len0 > 0 { len -= 1; } core::mem::forget(r); }
+    else if op == 3 { let r = b.pop_front(); check!(r.is_some() == (len0 > 0), "[C19] ZST pop_front"); if len0 > 0 { len -= 1; } core::mem::forget(r); }
+    else if op == 4 { let r = b.remove(arg); check!(r.is_some() == (arg < len0), "[C19] ZST remove"); if arg < len0 { len -= 1; } core::mem::forget(r); }
     else if op == 5 { b.truncate_back(arg); if arg < len0 { dropped = len0 - arg; len = arg; } }
     else if op == 6 { b.truncate_front(arg); if arg < len0 { dropped = len0 - arg; len = arg; } }
     else if op == 7 { b.clear(); dropped = len0; len = 0; }
-    else if op == 8 { let r = b.swap_remove_back(arg); assert!(r.is_some() == (arg < len0), "[C19] ZST swap_remove_back"); if arg < len0 { len -= 1; } core::mem::forget(r); }
+    else if op == 8 { let r = b.swap_remove_back(arg); check!(r.is_some() == (arg < len0), "[C19] ZST swap_remove_back"); if arg < len0 { len -= 1; } core::mem::forget(r); }
     else { let (lo, hi) = (any_bound(), any_bound()); let rng = bounds_to_range(lo, hi, len0); nd::assume(rng.is_some()); let (a, e) = rng.unwrap();
            { let mut d = b.drain((lo, hi)); if nd::any_bool() { let r = d.next(); if let Some(z) = r { core::mem::forget(z); if e > a { dropped = e - a - 1; } } else { dropped = 0; } } else { dropped = e - a; } }
            len = len0 - (e - a); }
-    assert!(wf(&b) && b.len() == len && b.is_empty() == (len == 0) && b.is_full() == (len == N), "[C19] ZST: length / emptiness / fullness do not follow the sequence semantics");
-    assert!(zdrops() == dropped, "[C19] ZST: number of destructor runs differs from the number of elements removed and not returned");
+    check!(wf(&b) && b.len() == len && b.is_empty() == (len == 0) && b.is_full() == (len == N), "[C19] ZST: length / emptiness / fullness do not follow the sequence semantics");
+    check!(zdrops() == dropped, "[C19] ZST: number of destructor runs differs from the number of elements removed and not returned");
     unsafe { core::ptr::drop_in_place(&mut b); }
-    assert!(zdrops() == dropped + len, "[C19] ZST: dropping the buffer does not destroy exactly the remaining elements");
+    check!(zdrops() == dropped + len, "[C19] ZST: dropping the buffer does not destroy exactly the remaining elements");
     nd::reached();
     core::mem::forget(b);
 }
@@ -1131,3 +1143,48 @@ pub(crate) fn c_zst<const N: usize>() {
 
 pub(crate) unsafe fn no_alloc(_l: core::alloc::Layout) -> *mut u8 { panic!("[C17] heap allocation performed by an operation that must not allocate") }
 pub(crate) unsafe fn no_realloc(_p: *mut u8, _l: core::alloc::Layout, _n: usize) -> *mut u8 { panic!("[C17] heap reallocation performed by an operation that must not allocate") }
+
+// ----- Debug (C07 C13): output equals that of the equivalent slice ---------------------------
+
+pub(crate) struct Dbg(pub u8);
+impl core::fmt::Debug for Dbg {
+    fn fmt(&self, f: &mut core::fmt::Formatter<'_>) -> core::fmt::Result {
+        use core::fmt::Write;
+        f.write_char((b'a' + (self.0 & 7)) as char)
+    }
+}
+
+pub(crate) struct Sink { pub buf: [u8; 16], pub n: usize }
+impl core::fmt::Write for Sink {
+    fn write_str(&mut self, s: &str) -> core::fmt::Result {
+        let b = s.as_bytes();
+        let mut i = 0;
+        while i < b.len() { if self.n < 16 { self.buf[self.n] = b[i]; } self.n += 1; i += 1; }
+        Ok(())
+    }
+}
+
+pub(crate) fn c_debug<const N: usize>() {
+    use core::fmt::Write;
+    let mut b = CircularBuffer::<N, Dbg>::new();
+    if N > 0 {
+        b.start = nd::usize_in(0, N - 1);
+        b.size = nd::usize_in(0, N);
+        let mut i = 0;
+        while i < b.size { b.items[phys(b.start, i, N)].write(Dbg(nd::any_u8())); i += 1; }
+    }
+    // the equivalent slice
+    let mut flat: [Dbg; N] = core::array::from_fn(|_| Dbg(0));
+    let mut i = 0;
+    while i < b.size { flat[i] = Dbg(unsafe { (*b.items[phys(b.start, i, N)].as_ptr()).0 }); i += 1; }
+    let mut s1 = Sink { buf: [0; 16], n: 0 };
+    let mut s2 = Sink { buf: [0; 16], n: 0 };
+    let alt = nd::any_bool();
+    let (r1, r2) = if alt { (write!(s1, "{:#?}", b), write!(s2, "{:#?}", &flat[..b.size])) } else { (write!(s1, "{:?}", b), write!(s2, "{:?}", &flat[..b.size])) };
+    check!(r1.is_ok() == r2.is_ok(), "[C07,C13] Debug: formatting the buffer fails where formatting the slice does not");
+    let mut same = s1.n == s2.n;
+    unroll16!(k, { if k < s1.n && k < s2.n && s1.buf[k] != s2.buf[k] { same = false; } });
+    check!(same, "[C07,C13] Debug output of the buffer differs from that of the equivalent slice");
+    nd::reached();
+    core::mem::forget(b);
+}
